@@ -375,7 +375,7 @@ class Calls:
         if sh[0] != 'struct':
             raise Unsupported('construct %s' % t)
         # copy / move construction of a known class
-        if len(args) == 1 and self._is_copy_ctor(t, ctype):
+        if len(args) == 1 and self._is_copy_ctor(ex, sh, ctype):
             return self._val(ex, args[0])
         qual = sh[1]
         cname = qual.split('::')[-1]
@@ -409,15 +409,17 @@ class Calls:
         b = body_of(d)
         return b is not None and not b.get('inner')
 
-    def _is_copy_ctor(self, t, ctype):
-        base = re.sub(r'\bconst\b', '', t).strip()
+    def _is_copy_ctor(self, ex, sh, ctype):
         m = re.match(r'^void \((.*)\)', ctype)
-        if not m:
+        if not m or ',' in m.group(1):
             return False
-        a = m.group(1).strip()
-        a = re.sub(r'\bconst\b', '', a).replace('&&', '').replace('&', '').strip()
-        a = re.sub(r'\s+', ' ', a)
-        return a == re.sub(r'\s+', ' ', base) or a.replace('dsplib::', '') == base.replace('dsplib::', '')
+        try:
+            a = ex.shapes.of(m.group(1).strip())
+        except Unsupported:
+            return False
+        if a[0] == 'ref':
+            a = a[1]
+        return a == sh
 
     def _val(self, ex, a):
         v = ex.ev(a)
